@@ -21,6 +21,7 @@ mod mon;
 mod mon_c02;
 mod mon_c03;
 mod mon_c04;
+mod mon_c05;
 mod mon_c08;
 mod mon_c10;
 mod mon_c12;
@@ -114,6 +115,7 @@ fn main() {
                 "C08" => mon_c08::run(&mut rng, n, &mut rep),
                 "BR" => mon_c10::run(&mut rng, n, &mut rep),
                 "GATE" => mon_c04::run(&mut rng, n, &mut rep),
+                "LIQ" => mon_c05::run(&mut rng, n, &mut rep),
                 "TXS" => fam_tx::monitor(&mut rng, n, &mut rep),
                 "ORA" => fam_oracle::monitor(&mut rng, n, &mut rep),
                 "C12" => mon_c12::run(&mut rng, n, &mut rep),
